@@ -257,6 +257,25 @@ def parts_of(e: ast.AST) -> List[ast.AST]:
         return out
     if isinstance(e, ast.Constant) and e.value == '':
         return []
+    # '%s%s' % (a, b)   /   '{}{}'.format(a, b): only plain conversions, literal text in between
+    fmt = args = None
+    if isinstance(e, ast.BinOp) and isinstance(e.op, ast.Mod) and const_str(e.left) is not None:
+        fmt, args, hole = const_str(e.left), (list(e.right.elts) if isinstance(e.right, ast.Tuple) else [e.right]), '%s'
+        if '%' in fmt.replace('%s', ''):
+            fmt = None
+    elif isinstance(e, ast.Call) and isinstance(e.func, ast.Attribute) and e.func.attr == 'format' and not e.keywords \
+            and const_str(e.func.value) is not None and not any(isinstance(a, ast.Starred) for a in e.args):
+        fmt, args, hole = const_str(e.func.value), list(e.args), '{}'
+        if '{' in fmt.replace('{}', '') or '}' in fmt.replace('{}', ''):
+            fmt = None
+    if fmt is not None and fmt.count(hole) == len(args):
+        out = []
+        for lit, a in zip(fmt.split(hole), args + [None]):
+            if lit:
+                out.append(ast.Constant(value=lit))
+            if a is not None:
+                out += parts_of(a)
+        return out
     return [e]
 
 
@@ -607,6 +626,12 @@ class Counter:
                     self.list_ctx[e.id] = tuple(self._loop_atom(fo, st) for fo in st.cfg.enclosing_fors(defs[0].node)) \
                         if defs[0].node is not None else ()
                     return '@' + e.id
+                # `fields = DEFAULT if fields is None else fields` / `fields = fields or DEFAULT`: the parameter with its default
+                # filled in (same as the statement form `if fields is None: fields = DEFAULT` below)
+                alts = [v.body, v.orelse] if isinstance(v, ast.IfExp) else (list(v.values) if isinstance(v, ast.BoolOp) and isinstance(v.op, ast.Or) else [])
+                if any(isinstance(a, ast.Name) and a.id == e.id for a in alts) and e.id in st.func.params \
+                        and all(d.kind == 'param' for d in st.flow.reaching(e.id, defs[0].node)):
+                    return e.id
                 r = self._len_atom(v, st, defs[0].node, depth + 1)
                 return 'var:' + e.id if r.startswith('expr:') else r
             if any(d.kind == 'param' for d in defs) and all(d.kind in ('param', 'assign') for d in defs):
